@@ -265,6 +265,33 @@ class Ribosome:
         Returns:
             Protein with the rendered sequence
         """
+        parked: list[str] = []
+        protein = self._translate(template, context, parked)
+        protein.sequence = self._restore(parked, protein.sequence)
+        return protein
+
+    # Text that enters the output through a bound value, loop item, default
+    # or filter is data, not template: it is parked behind a marker that no
+    # template pattern matches, so the later passes cannot re-interpret it,
+    # and restored once after the last pass.
+    @staticmethod
+    def _park(parked: list[str] | None, text: str) -> str:
+        if parked is None:
+            return text
+        parked.append(text)
+        return f"\x00{len(parked) - 1}\x00"
+
+    @staticmethod
+    def _restore(parked: list[str], sequence: str) -> str:
+        return re.sub("\x00(\\d+)\x00", lambda m: parked[int(m.group(1))], sequence)
+
+    def _translate(
+        self,
+        template: str | mRNA,
+        context: dict[str, Any],
+        parked: list[str],
+    ) -> Protein:
+        """Render one template; substituted values stay parked (see _park)."""
         self._translations_count += 1
         warnings: list[str] = []
 
@@ -278,6 +305,9 @@ class Ribosome:
             mrna = template
 
         sequence = mrna.sequence
+        if "\x00" in sequence:
+            # a literal NUL in the template must not look like a marker
+            sequence = sequence.replace("\x00", self._park(parked, "\x00"))
 
         # Check required variables
         for var_name in mrna.get_required_variables():
@@ -292,13 +322,13 @@ class Ribosome:
         sequence = self._process_conditionals(sequence, context)
 
         # Process loops
-        sequence = self._process_loops(sequence, context)
+        sequence = self._process_loops(sequence, context, parked)
 
         # Process includes
-        sequence = self._process_includes(sequence, context)
+        sequence = self._process_includes(sequence, context, parked)
 
         # Process variable substitutions
-        sequence = self._process_variables(sequence, context, warnings)
+        sequence = self._process_variables(sequence, context, warnings, parked)
 
         return Protein(
             sequence=sequence,
@@ -320,7 +350,8 @@ class Ribosome:
         self,
         sequence: str,
         context: dict[str, Any],
-        warnings: list[str]
+        warnings: list[str],
+        parked: list[str] | None = None,
     ) -> str:
         """
         Process variable substitutions in the template sequence.
@@ -352,9 +383,9 @@ class Ribosome:
             if var_name in context:
                 value = context[var_name]
                 if filter_name in self.filters:
-                    return self.filters[filter_name](value)
+                    return self._park(parked, self.filters[filter_name](value))
                 warnings.append(f"Unknown filter: {filter_name}")
-                return str(value)
+                return self._park(parked, str(value))
             return match.group(0)
 
         result = re.sub(r'\{\{(\w+)\|(\w+)\}\}', replace_filtered, result)
@@ -377,14 +408,16 @@ class Ribosome:
             value_or_default = match.group(2)
             if value_or_default not in self.filters:
                 if var_name in context:
-                    result = result.replace(match.group(0), str(context[var_name]))
+                    result = result.replace(match.group(0), self._park(parked, str(context[var_name])))
                 else:
-                    result = result.replace(match.group(0), value_or_default)
+                    # the default is template text: markers inside it are genuine
+                    default = value_or_default if parked is None else self._restore(parked, value_or_default)
+                    result = result.replace(match.group(0), self._park(parked, default))
 
         # Optional variables: {{?name}}
         def replace_optional(match: re.Match) -> str:
             var_name = match.group(1)
-            return str(context.get(var_name, ""))
+            return self._park(parked, str(context.get(var_name, "")))
 
         result = re.sub(r'\{\{\?(\w+)\}\}', replace_optional, result)
 
@@ -392,7 +425,7 @@ class Ribosome:
         def replace_simple(match: re.Match) -> str:
             var_name = match.group(1)
             if var_name in context:
-                return str(context[var_name])
+                return self._park(parked, str(context[var_name]))
             warnings.append(f"Unbound variable: {var_name}")
             return match.group(0)
 
@@ -438,7 +471,12 @@ class Ribosome:
 
         return result
 
-    def _process_loops(self, sequence: str, context: dict[str, Any]) -> str:
+    def _process_loops(
+        self,
+        sequence: str,
+        context: dict[str, Any],
+        parked: list[str] | None = None,
+    ) -> str:
         """
         Process loop blocks in the template sequence.
 
@@ -492,7 +530,9 @@ class Ribosome:
                 # Process the content with loop context
                 part = content
                 for key, value in loop_context.items():
-                    part = part.replace(f"{{{{{key}}}}}", str(value))
+                    slot = f"{{{{{key}}}}}"
+                    if slot in part:
+                        part = part.replace(slot, self._park(parked, str(value)))
 
                 output_parts.append(part)
 
@@ -502,7 +542,12 @@ class Ribosome:
 
         return result
 
-    def _process_includes(self, sequence: str, context: dict[str, Any]) -> str:
+    def _process_includes(
+        self,
+        sequence: str,
+        context: dict[str, Any],
+        parked: list[str] | None = None,
+    ) -> str:
         """
         Process include directives in the template sequence.
 
@@ -531,8 +576,9 @@ class Ribosome:
         def replace_include(match: re.Match) -> str:
             template_name = match.group(1)
             if template_name in self.templates:
-                protein = self.translate(template_name, **context)
-                return protein.sequence
+                if parked is None:
+                    return self.translate(template_name, **context).sequence
+                return self._translate(template_name, context, parked).sequence
             return f"[Unknown template: {template_name}]"
 
         result = re.sub(pattern, replace_include, result)
